@@ -24,7 +24,7 @@ open Tfl Tfl.Poset Tfl.Linear Tfl.Verify
 /-- the constraint of an accepted configuration is total and what it returns meets every
 kernel-level constraint: restatement of `Tfl.C06.accepted_project` for a given result `k` -/
 theorem accepted_kernel (nid : Option Nat) (mv mdv rdv iminv imaxv : Val) (c : LinCfg)
-    (h : verifyLinear nid mv mdv rdv iminv imaxv = .ok c) (ord : NormOrd)
+    (h : verifyLinear nid mv mdv rdv iminv imaxv = .ok c) (ord : Linear.NormOrd)
     (w0 : List Rat) (hlen : w0.length = c.monos.length) (k : List Rat)
     (hk : Linear.project c.monos c.md c.rd c.los c.his ord w0 = .ok k) :
     k.length = w0.length ∧
@@ -39,7 +39,7 @@ theorem accepted_kernel (nid : Option Nat) (mv mdv rdv iminv imaxv : Val) (c : L
 
 /-- the constraint of an accepted configuration never raises -/
 theorem accepted_kernel_exists (nid : Option Nat) (mv mdv rdv iminv imaxv : Val) (c : LinCfg)
-    (h : verifyLinear nid mv mdv rdv iminv imaxv = .ok c) (ord : NormOrd)
+    (h : verifyLinear nid mv mdv rdv iminv imaxv = .ok c) (ord : Linear.NormOrd)
     (w0 : List Rat) (hlen : w0.length = c.monos.length) :
     ∃ k, Linear.project c.monos c.md c.rd c.los c.his ord w0 = .ok k := by
   obtain ⟨_, out, _, ho, _⟩ := C06.accepted_project nid mv mdv rdv iminv imaxv c h ord w0 hlen
@@ -51,7 +51,7 @@ normalisation order — the layer output is non-decreasing in every increasing i
 non-increasing in every decreasing input, for all values, all other inputs, every bias and every
 bound configuration of the layer. -/
 theorem accepted_monotone (nid : Option Nat) (mv mdv rdv iminv imaxv : Val) (c : LinCfg)
-    (h : verifyLinear nid mv mdv rdv iminv imaxv = .ok c) (ord : NormOrd)
+    (h : verifyLinear nid mv mdv rdv iminv imaxv = .ok c) (ord : Linear.NormOrd)
     (w0 : List Rat) (hlen : w0.length = c.monos.length) (k : List Rat)
     (hk : Linear.project c.monos c.md c.rd c.los c.his ord w0 = .ok k)
     (b : Option Rat) (los his : List (Option Rat)) (x : List Rat) (i : Nat) {v v' : Rat} (hv : v ≤ v') :
@@ -64,7 +64,7 @@ theorem accepted_monotone (nid : Option Nat) (mv mdv rdv iminv imaxv : Val) (c :
 listed `(dominant, weak)` pair of an accepted configuration and every step `δ ≥ 0` that leaves both
 inputs unclipped, the output changes at least as much along the dominant input as along the weak. -/
 theorem accepted_monotonic_dominance (nid : Option Nat) (mv mdv rdv iminv imaxv : Val) (c : LinCfg)
-    (h : verifyLinear nid mv mdv rdv iminv imaxv = .ok c) (ord : NormOrd)
+    (h : verifyLinear nid mv mdv rdv iminv imaxv = .ok c) (ord : Linear.NormOrd)
     (w0 : List Rat) (hlen : w0.length = c.monos.length) (k : List Rat)
     (hk : Linear.project c.monos c.md c.rd c.los c.his ord w0 = .ok k)
     (b : Option Rat) (los his : List (Option Rat)) (x : List Rat) (p : Nat × Nat) (hp : p ∈ c.md)
@@ -84,7 +84,7 @@ drop (decreasing pair) of the output across the dominant input's full range is a
 the weak input's full range — whatever the other inputs are. The layer clips with the configuration's
 own `input_min` / `input_max`. -/
 theorem accepted_range_dominance_call (nid : Option Nat) (mv mdv rdv iminv imaxv : Val) (c : LinCfg)
-    (h : verifyLinear nid mv mdv rdv iminv imaxv = .ok c) (ord : NormOrd)
+    (h : verifyLinear nid mv mdv rdv iminv imaxv = .ok c) (ord : Linear.NormOrd)
     (w0 : List Rat) (hlen : w0.length = c.monos.length) (k : List Rat)
     (hk : Linear.project c.monos c.md c.rd c.los c.his ord w0 = .ok k)
     (p : Nat × Nat) (hp : p ∈ c.rd) :
